@@ -24,4 +24,4 @@ for c in "$@"; do
 done
 cat $R
 mkdir -p /verif/build/seedeval && cp $R /verif/build/seedeval/$NAME.txt
-rm -rf $W/clean $W/mut
+rm -rf $W/clean $W/mut /verif/build/ev-$NAME /verif/replays/ev-$NAME
